@@ -355,7 +355,12 @@ class Gen:
         self.vars[y] = ('u', w)
         vals = list(range(4))
         self.r.shuffle(vals)
-        for v in vals[:self.r.choice([3, 3, 4])]:
+        vals = vals[:self.r.choice([3, 3, 4])]
+        if self.r.random() < 0.4:
+            # the same constant tested twice with different assigned values: the LAST assignment wins (sequential IFs)
+            vals.insert(self.r.randrange(1, len(vals) + 1), self.r.choice(vals))
+        seen_vals = {}
+        for v in vals:
             k = self.lit_u(sw, xprob=0.0)
             # overwrite literal with the exact value
             self.s[-1] = f"lit {k} u{sw} {v:02b}"
@@ -363,7 +368,18 @@ class Gen:
             self.emit(f"bin {c} eq {s} {k}")
             self.vars[c] = ('b', 1)
             self.emit(f"if {c}")
-            self.emit(f"set {y} {self.get_u(w)}")
+            if vals.count(v) > 1:
+                # both assignments under the repeated constant are explicit, different literals
+                bits = format(self.r.randrange(1 << w), f"0{w}b")
+                while bits == seen_vals.get(v):
+                    bits = format(self.r.randrange(1 << w), f"0{w}b")
+                seen_vals[v] = bits
+                kk = self.fresh("k")
+                self.emit(f"lit {kk} u{w} {bits}")
+                self.vars[kk] = ('u', w)
+                self.emit(f"set {y} {kk}")
+            else:
+                self.emit(f"set {y} {self.get_u(w)}")
             self.emit("endif")
         if self.r.random() < 0.6:
             # a following mux on the same selector that is entered through its TRUE input
